@@ -19,6 +19,14 @@ pub fn query_keys() -> Vec<V> {
     q
 }
 fn value_for(i: usize) -> V {
+    // string keys (indices 8..) get "falsy" but non-null values: presence must not depend on the value
+    match i {
+        8 => return V::Int(0),
+        9 => return V::s(""),
+        10 => return V::Bool(false),
+        11 => return V::List(vec![]),
+        _ => {}
+    }
     match i % 4 {
         0 => V::Int(100 + i as i64),
         1 => V::s(&format!("v{i}")),
@@ -90,7 +98,8 @@ pub fn check_map(c: &MapQ) -> Outcome {
         (2, Some((_, v)), R::Val(g)) => same(v, g),
         (2, None, R::Val(V::Null)) => true,
         (3, Some((_, v)), R::Val(g)) => same(v, g),
-        (3, None, R::Err(ErrClass::NoSuchKey, _)) => true,
+        // an absent field is an error (which error is not asserted here)
+        (3, None, R::Err(..)) => true,
         _ => false,
     };
     if !ok {
@@ -110,6 +119,83 @@ pub fn check_map(c: &MapQ) -> Outcome {
         "present-key-query"
     };
     pass_n(twin || present.is_none(), vec![cl, ["form:in", "form:method-contains", "form:index", "form:select", "form:has", "form:function-contains"][c.form as usize]])
+}
+
+/// arbitrary (map, key, form) triples outside the 12-key alphabet
+#[derive(Clone, Debug, Serialize, Deserialize)]
+pub struct Wrap {
+    pub entries: Vec<(V, V)>,
+    pub query: V,
+    pub form: u8,
+    pub literal: bool,
+}
+
+pub fn check_wrap(c: &Wrap) -> Outcome {
+    let m = V::Map(c.entries.clone());
+    let present = c.entries.iter().find(|(k, _)| same_key(k, &c.query));
+    let (msrc, ksrc, vars): (String, String, Vec<(String, V)>) = if c.literal { (lit::lit(&m).unwrap(), lit::lit(&c.query).unwrap(), vec![]) } else { ("m".into(), "k".into(), vec![("m".into(), m.clone()), ("k".into(), c.query.clone())]) };
+    let field = match &c.query {
+        V::Str(s) if is_identifier(s) => Some(s.clone()),
+        _ => None,
+    };
+    let src = match (c.form, &field) {
+        (0, _) => format!("{ksrc} in {msrc}"),
+        (1, _) => format!("{msrc}.contains({ksrc})"),
+        (2, _) => format!("{msrc}[{ksrc}]"),
+        (3, Some(f)) => format!("{msrc}.{f}"),
+        (4, Some(f)) => format!("has({msrc}.{f})"),
+        _ => return Outcome::Skip("query-key-is-not-identifier-like"),
+    };
+    let got = match sut::run_src(&src, &vars) {
+        Ran::Done(r) => r,
+        o => return fail(format!("`{src}` {vars:?}: {}", o.show())),
+    };
+    let ok = match (c.form, present, &got) {
+        (0 | 1 | 4, p, R::Val(V::Bool(b))) => *b == p.is_some(),
+        (2 | 3, Some((_, v)), R::Val(g)) => same(v, g),
+        (2, None, R::Val(V::Null)) => true,
+        (3, None, R::Err(..)) => true,
+        _ => false,
+    };
+    if !ok {
+        return fail(format!("`{src}` with m = {m:?}, k = {:?}: the key is {}, observed {}", c.query, if present.is_some() { "present" } else { "absent" }, got.show()));
+    }
+    pass_n(true, vec![if present.is_some() { "present-key-query" } else { "absent-key-query" }])
+}
+
+/// int and uint keys whose 64-bit patterns coincide but whose values differ (-1 / u64::MAX, i64::MIN / 2^63)
+fn wrap_cases() -> Vec<Wrap> {
+    let ks = [V::Int(-1), V::UInt(u64::MAX), V::Int(i64::MIN), V::UInt(1 << 63), V::Int(i64::MAX), V::UInt(i64::MAX as u64), V::Int(0), V::UInt(0)];
+    let mut out = vec![];
+    for stored in &ks {
+        for q in &ks {
+            for form in 0..3u8 {
+                for literal in [false, true] {
+                    out.push(Wrap { entries: vec![(stored.clone(), V::s("v"))], query: q.clone(), form, literal });
+                }
+            }
+        }
+    }
+    out
+}
+
+/// present keys whose values are zero / empty / false: every query form still says "present"
+fn falsy_cases() -> Vec<Wrap> {
+    let vals = [V::Int(0), V::UInt(0), V::f(0.0), V::Bool(false), V::s(""), V::List(vec![]), V::Map(vec![]), V::Bytes(vec![]), V::dur_ns(0)];
+    let mut out = vec![];
+    for v in &vals {
+        for (k, q) in [(V::s("zero"), V::s("zero")), (V::s("zero"), V::s("other")), (V::Int(5), V::Int(5)), (V::Bool(false), V::Bool(false))] {
+            for form in 0..5u8 {
+                for literal in [false, true] {
+                    if literal && lit::lit(v).is_none() {
+                        continue;
+                    }
+                    out.push(Wrap { entries: vec![(k.clone(), v.clone()), (V::s("pad"), V::Int(1))], query: q.clone(), form, literal });
+                }
+            }
+        }
+    }
+    out
 }
 
 #[derive(Clone, Debug, Serialize, Deserialize)]
@@ -303,6 +389,8 @@ pub fn run(r: &mut Runner) {
         );
     }
     r.sweep("map-literals", subsets.iter().map(|k| MapLit { keys: k.clone() }).collect(), check_map_literal);
+    r.sweep("wrapping-int-uint-keys", wrap_cases(), check_wrap);
+    r.sweep("falsy-values-under-every-query-form", falsy_cases(), check_wrap);
     {
         let alpha = [V::Int(1), V::Int(2), V::s("a")];
         let mut cases = vec![];
